@@ -5,15 +5,17 @@
 //! (`layoutmodel`) expects followed by the observed answer in the driver's canonical format; see
 //! `common.rs` for the output protocol.
 //!
-//!   gcverif-layout --prop C17|C18 [--tier quick|thorough] [--seed N] [--start IDX]
+//!   gcverif-layout --prop C17|C18|C11 [--tier quick|thorough] [--seed N] [--start IDX]
 //!                  [--only FILE] [--list]
 
+mod c11;
 mod c17;
 mod c18;
 mod common;
 mod track;
 mod types;
 
+use c11::*;
 use c17::*;
 use c18::*;
 use common::*;
@@ -54,16 +56,38 @@ macro_rules! slice_types {
     )*};
 }
 
-fn probe_header() -> (usize, usize) {
-    track::begin_case();
-    let n0 = track::log_len();
-    gc_arena::arena::rootless_mutate(|_| {
-        let b = on(|| GcBuilder::<Static<()>>::new());
-        on(|| drop(b));
-    });
-    let a = allocs_since(n0);
-    let _ = track::end_case();
-    a.first().map(|x| (x.1, x.2)).unwrap_or((0, 0))
+/// Size and alignment of `GcHeader`, observed rather than assumed: the block of a value with
+/// unit metadata is `GcHeader` followed by the value, so three probes (a zero-sized, a one-byte
+/// and an eight-byte value) each give a candidate.  The candidates agree on an unmodified crate;
+/// if a change to the crate makes them disagree, the one equal to "two words" is used when
+/// present (the disagreement then shows up in the cases themselves), else the most frequent.
+fn probe_header() -> ((usize, usize), Vec<(usize, usize)>) {
+    fn one<W: for<'a> gc_arena::Collect<'a> + 'static>(sub: usize) -> Option<(usize, usize)> {
+        track::begin_case();
+        let n0 = track::log_len();
+        let r = std::panic::catch_unwind(|| {
+            gc_arena::arena::rootless_mutate(|_| {
+                let b = on(|| GcBuilder::<W>::new());
+                on(|| drop(b));
+            })
+        });
+        drop(r);
+        let a = allocs_since(n0);
+        let _ = track::end_case();
+        a.first().map(|x| (x.1.wrapping_sub(sub), x.2))
+    }
+    IN_CASE.with(|c| c.set(true));
+    let cands: Vec<(usize, usize)> =
+        [one::<Static<V1<0>>>(0), one::<Static<V1<1>>>(1), one::<Static<V8<8>>>(8)].into_iter().flatten().collect();
+    IN_CASE.with(|c| c.set(false));
+    let word = std::mem::size_of::<usize>();
+    let expected = (2 * word, word);
+    let chosen = if cands.contains(&expected) {
+        expected
+    } else {
+        cands.iter().copied().max_by_key(|c| cands.iter().filter(|d| *d == c).count()).unwrap_or((0, 0))
+    };
+    (chosen, cands)
 }
 
 fn c17(cx: &mut Cx) {
@@ -175,10 +199,58 @@ fn c17(cx: &mut Cx) {
     for &len in &slens {
         str_case(cx, len);
     }
+    // ---- every AllocMeta impl DIRECTLY through GcBuilder::new_with_type_and_ptr_meta ----
+    // (SlicePtrMeta::layout and StrPtrMeta::layout are reached on this path only); unit and
+    // non-unit per-type metadata
+    macro_rules! slice_direct {
+        ($cx:expr, $lens:expr, [$($e:ty),*]) => {$(
+            for &len in $lens.iter() {
+                slice_direct_case::<$e, ViaNew>($cx, len);
+                if len % 3 == 2 { slice_direct_case::<$e, ViaTm>($cx, len); }
+            }
+        )*};
+    }
+    let mut dlens = lens.clone();
+    dlens.extend([7, 13]);
+    dlens.sort();
+    dlens.dedup();
+    slice_direct!(cx, dlens, [u8, [u8; 3], u16, [u16; 3], u32, u64, V8<24>, u128, V32<32>, V64<64>, (), V8<0>, V64<0>, V4096<1>]);
+    for &len in &dlens {
+        str_direct_case::<ViaNew>(cx, len);
+        str_direct_case::<ViaTm>(cx, len);
+    }
+    macro_rules! swh_direct {
+        ($cx:expr, $lens:expr, [$($h:ty),*], $es:tt) => {$( swh_direct!(@e $cx, $lens, $h, $es); )*};
+        (@e $cx:expr, $lens:expr, $h:ty, [$($e:ty),*]) => {$(
+            for &len in $lens.iter() {
+                swh_direct_case::<$h, $e, ViaNew>($cx, len);
+                if len % 3 == 1 { swh_direct_case::<$h, $e, ViaTm>($cx, len); }
+            }
+        )*};
+    }
+    swh_direct!(cx, dlens, [(), u8, u64, [u8; 17], V32<32>, V64<0>], [u8, [u8; 3], u32, u64, V8<24>, V64<64>, (), V64<0>]);
+    // ---- the new_with_type_meta entry points of the four builders (non-unit type metadata) ----
+    sized_case_r::<Static<V1<0>>, ViaTm>(cx);
+    sized_case_r::<Static<V1<3>>, ViaTm>(cx);
+    sized_case_r::<Static<V8<24>>, ViaTm>(cx);
+    sized_case_r::<Tr<V64<65>>, ViaTm>(cx);
+    sized_case_r::<Static<V4096<1>>, ViaTm>(cx);
+    for &len in &dlens {
+        swh_case_r::<u8, u32, ViaTm>(cx, len);
+        swh_case_r::<V32<32>, [u8; 3], ViaTm>(cx, len);
+        swh_case_r::<(), V64<0>, ViaTm>(cx, len);
+        slice_case_r::<u8, ViaTm>(cx, len);
+        slice_case_r::<u64, ViaTm>(cx, len);
+        slice_case_r::<V64<64>, ViaTm>(cx, len);
+        slice_case_r::<(), ViaTm>(cx, len);
+        str_case_r::<ViaTm>(cx, len);
+    }
     // zero-sized elements admit any length (the value has no bytes)
     for len in [imax, usize::MAX, usize::MAX / 2 + 3] {
         slice_case::<()>(cx, len);
         slice_case::<V64<0>>(cx, len);
+        slice_direct_case::<(), ViaNew>(cx, len);
+        slice_direct_case::<V64<0>, ViaTm>(cx, len);
         swh_case::<u32, ()>(cx, len);
         swh_case::<V64<1>, V8<0>>(cx, len);
     }
@@ -214,6 +286,15 @@ fn c17(cx: &mut Cx) {
     }
     for len in certain_fail(4096) {
         overflow_case::<(), V4096<1>>(cx, DstKind::Slice, len);
+    }
+    for len in certain_fail(1) {
+        overflow_case::<(), u8>(cx, DstKind::StrDirect, len);
+        overflow_case::<(), u8>(cx, DstKind::SliceDirect, len);
+        overflow_case::<u64, u8>(cx, DstKind::SwhDirect, len);
+    }
+    for len in certain_fail(8) {
+        overflow_case::<(), u64>(cx, DstKind::SliceDirect, len);
+        overflow_case::<u8, u64>(cx, DstKind::SwhDirect, len);
     }
 
     // ---- the tagged vtable pointer in every reachable state ----
@@ -262,6 +343,35 @@ fn c18(cx: &mut Cx) {
     slice_copy_grid::<V64<64>>(cx);
     slice_copy_grid::<V4096<1>>(cx);
     str_grid(cx);
+}
+
+/// C11 (panic safety), builder clause: repeated builder faults on one arena.
+fn c11(cx: &mut Cx) {
+    macro_rules! swh_f {
+        ([$($h:ty),*], $es:tt) => {$( swh_f!(@e $h, $es); )*};
+        (@e $h:ty, [$($e:ty),*]) => {$( swh_faults::<$h, $e>(cx); )*};
+    }
+    // headers with / without destructor, zero-sized, over-aligned  x  elements likewise
+    swh_f!([HTok, HTok128, HZTok, (), u64, V64<0>], [ETok, ETok64, EZTok, EZTok32, u8, u32, (), V64<64>]);
+    swh_faults::<HTok, V4096<1>>(cx);
+    macro_rules! swh_cf {
+        ([$($h:ty),*], $es:tt) => {$( swh_cf!(@e $h, $es); )*};
+        (@e $h:ty, [$($e:ty),*]) => {$( swh_copy_faults::<$h, $e>(cx); )*};
+    }
+    swh_cf!([HTok, HTok128, HZTok, (), u64], [u8, u32, (), V64<64>]);
+    slice_faults::<ETok>(cx);
+    slice_faults::<ETok64>(cx);
+    slice_faults::<EZTok>(cx);
+    slice_faults::<EZTok32>(cx);
+    slice_faults::<u8>(cx);
+    slice_faults::<u32>(cx);
+    slice_faults::<()>(cx);
+    slice_faults::<V64<64>>(cx);
+    slice_copy_faults::<u8>(cx);
+    slice_copy_faults::<u32>(cx);
+    slice_copy_faults::<()>(cx);
+    slice_copy_faults::<V64<64>>(cx);
+    str_faults(cx);
 }
 
 fn main() {
@@ -321,11 +431,14 @@ fn main() {
     }
     cx.rng = cx.seed.wrapping_mul(0x9E3779B97F4A7C15) | 1;
     install_panic_hook();
-    let (hs, ha) = probe_header();
+    let ((hs, ha), cands) = probe_header();
     cx.hdr_size = hs;
     cx.hdr_align = ha;
     let word = std::mem::size_of::<usize>();
     let _ = writeln!(cx.out, "C config {} {} {} {}", isize::MAX, hs, ha, word);
+    if cands.iter().any(|c| *c != (hs, ha)) {
+        let _ = writeln!(cx.out, "N header probes disagree: {cands:?} (using {hs}/{ha})");
+    }
     if (hs, ha) != (2 * word, word) {
         let _ = writeln!(cx.out, "M 0 header probe: a zero-sized align-1 value was allocated with size {hs} align {ha}; GcHeader is two words ({} / {})", 2 * word, word);
     }
@@ -334,6 +447,9 @@ fn main() {
     }
     if prop == "C18" || prop == "all" {
         c18(&mut cx);
+    }
+    if prop == "C11" || prop == "all" {
+        c11(&mut cx);
     }
     let _ = writeln!(cx.out, "Z {}", cx.ran);
     let _ = cx.out.flush();
